@@ -562,11 +562,9 @@ static int apply(struct vthread *t, int spurious, int inl)
         o->ret = 0;
         return 1;
     case OP_RETURN:
-        /* monitor: dsh() returned although a started command is not torn down / a worker lives */
+        /* monitor: dsh() returned although a started command is not torn down */
         for (i = 0; i < nvhosts; i++)
             if (vhosts[i].nbegin != vhosts[i].ndend) early_return = 1;
-        for (i = 1; i < nth; i++)
-            if (th[i].alive && (th[i].kind == 1 || th[i].kind == 4)) early_return = 1;
         evhdr(t, inl); fprintf(stdout, "return %ld\n", o->a);
         step_no++;
         finish("ok", (int) o->a);
